@@ -10,8 +10,9 @@
 //
 // with MySQL LIKE semantics (% any sequence, _ exactly one character, backslash escapes the
 // next pattern character), MySQL string-literal escapes, binary (case-sensitive) comparison,
-// rows returned in primary-key order, and snapshot transactions (BEGIN copies the database,
-// COMMIT installs the copy, first committer wins; ROLLBACK drops it).
+// rows returned in primary-key order, and snapshot transactions (BEGIN copies the database; the
+// statements of the transaction run on the copy and are logged; COMMIT re-executes the logged writes
+// on the live database; ROLLBACK drops copy and log).
 //
 // It is trusted base of check C12: keep it small.  Everything it does not understand is an
 // error AND is counted (Engine.Unsupported) so that a driver can stop instead of recording
@@ -471,7 +472,6 @@ func (d database) clone() database {
 type Engine struct {
 	mu          sync.Mutex
 	db          database
-	version     int64
 	unsupported []string
 	failCommit  string // "", "before", "after": consumed by the next COMMIT
 }
@@ -506,7 +506,6 @@ func (e *Engine) Truncate() {
 	for _, t := range e.db {
 		t.rows = map[string]map[string]driver.Value{}
 	}
-	e.version++
 }
 
 // Dump returns every row of every table: table -> rows (column -> value) in primary-key order.
@@ -715,9 +714,14 @@ type conn struct {
 
 type txn struct {
 	c    *conn
-	snap database
-	base int64
+	snap database // private copy: the transaction reads its own writes, nobody else sees them
+	log  []logged // the writes, re-executed on the live database at COMMIT
 	done bool
+}
+
+type logged struct {
+	st   *parsed
+	args []driver.Value
 }
 
 func (c *conn) Prepare(q string) (driver.Stmt, error) {
@@ -739,7 +743,7 @@ func (c *conn) Begin() (driver.Tx, error) {
 	if c.tx != nil {
 		return nil, errors.New("sqlfake: transaction already open on this connection")
 	}
-	c.tx = &txn{c: c, snap: c.e.db.clone(), base: c.e.version}
+	c.tx = &txn{c: c, snap: c.e.db.clone()}
 	return c.tx, nil
 }
 
@@ -757,11 +761,11 @@ func (t *txn) Commit() error {
 	if mode == "before" {
 		return ErrInjectedCommit
 	}
-	if e.version != t.base {
-		return errors.New("sqlfake: serialization failure (database changed since BEGIN)")
+	for _, w := range t.log {
+		if _, _, _, err := exec(e.db, w.st, append([]driver.Value(nil), w.args...)); err != nil {
+			return err
+		}
 	}
-	e.db = t.snap
-	e.version++
 	if mode == "after" {
 		return ErrInjectedCommit
 	}
@@ -797,8 +801,8 @@ func (s *stmt) run(args []driver.Value) ([]string, [][]driver.Value, int64, erro
 		db = s.c.tx.snap
 	}
 	cols, rows, n, err := exec(db, s.st, append([]driver.Value(nil), args...))
-	if err == nil && s.c.tx == nil && (s.st.kind == kCreate || n > 0) && s.st.kind != kSelect {
-		e.version++
+	if err == nil && s.c.tx != nil && s.st.kind != kSelect {
+		s.c.tx.log = append(s.c.tx.log, logged{s.st, append([]driver.Value(nil), args...)})
 	}
 	return cols, rows, n, err
 }
